@@ -221,6 +221,9 @@ func val1(c *Ctx) {
 				val = el
 			}
 			src := stripConv(val)
+			if vals := ir.PhiValuesAt(src, st.Block()); len(vals) == 1 {
+				src = stripConv(vals[0])
+			}
 			if wantFn == "" {
 				if src != ssa.Value(s) {
 					problems = append(problems, "stored string is not the parameter unchanged")
@@ -237,14 +240,15 @@ func val1(c *Ctx) {
 		}
 		// returns: nil or the parse error as is
 		for _, r := range ir.Returns(fn) {
-			v := r.Results[0]
-			if ir.IsNilConst(v) {
-				continue
+			for _, v := range ir.PhiValuesAt(r.Results[0], r.Block()) {
+				if ir.IsNilConst(v) {
+					continue
+				}
+				if ex, isEx := v.(*ssa.Extract); isEx && parse != nil && ex.Tuple == ssa.Value(parse) && ex.Index == 1 {
+					continue
+				}
+				problems = append(problems, fmt.Sprintf("return at %s is neither nil nor the strconv error as is", c.P.Pos(r.Pos())))
 			}
-			if ex, isEx := v.(*ssa.Extract); isEx && parse != nil && ex.Tuple == ssa.Value(parse) && ex.Index == 1 {
-				continue
-			}
-			problems = append(problems, fmt.Sprintf("return at %s is neither nil nor the strconv error as is", c.P.Pos(r.Pos())))
 		}
 		if parse != nil {
 			// error must be returned on the non-nil edge: every path from parse to return nil passes the err==nil edge
@@ -286,6 +290,43 @@ func extractOf(t ssa.Value, idx int) ssa.Value {
 // errIsNilAt reports whether error value e is known to be nil at block b
 // (b is dominated by the nil edge of a comparison of e with nil).
 func errIsNilAt(e ssa.Value, b *ssa.BasicBlock) bool {
+	if errCmpAt(e, b, true) {
+		return true
+	}
+	// merged with other outcomes at a join: `err := f(); ...; err = g(); if err == nil`
+	for _, u := range *e.Referrers() {
+		if phi, ok := u.(*ssa.Phi); ok && errCmpAt(phi, b, true) {
+			return true
+		}
+	}
+	return false
+}
+
+// errCmpAt: a comparison of e with nil is known to have the outcome (e == nil) == wantNil at b.
+func errCmpAt(e ssa.Value, b *ssa.BasicBlock, wantNil bool) bool {
+	if e.Referrers() == nil {
+		return false
+	}
+	for _, u := range *e.Referrers() {
+		bo, ok := u.(*ssa.BinOp)
+		if !ok || !(ir.IsNilConst(bo.X) || ir.IsNilConst(bo.Y)) {
+			continue
+		}
+		switch bo.Op {
+		case token.NEQ:
+			if ir.HoldsAt(bo, !wantNil, b) {
+				return true
+			}
+		case token.EQL:
+			if ir.HoldsAt(bo, wantNil, b) {
+				return true
+			}
+		}
+	}
+	return false
+}
+
+func errIsNilAtOld(e ssa.Value, b *ssa.BasicBlock) bool {
 	for _, u := range *e.Referrers() {
 		bo, ok := u.(*ssa.BinOp)
 		if !ok || !(ir.IsNilConst(bo.X) || ir.IsNilConst(bo.Y)) {
@@ -307,6 +348,23 @@ func errIsNilAt(e ssa.Value, b *ssa.BasicBlock) bool {
 
 // errIsNonNilAt is the dual of errIsNilAt.
 func errIsNonNilAt(e ssa.Value, b *ssa.BasicBlock) bool {
+	if errCmpAt(e, b, false) {
+		return true
+	}
+	for _, u := range *e.Referrers() {
+		if phi, ok := u.(*ssa.Phi); ok && errCmpAt(phi, b, false) {
+			// only if the phi's other edges cannot be what made it non-nil is this about e; accept when
+			// control reaches b only through e's edge
+			vals := ir.PhiValuesAt(phi, b)
+			if len(vals) == 1 && vals[0] == e {
+				return true
+			}
+		}
+	}
+	return false
+}
+
+func errIsNonNilAtOld(e ssa.Value, b *ssa.BasicBlock) bool {
 	for _, u := range *e.Referrers() {
 		bo, ok := u.(*ssa.BinOp)
 		if !ok || !(ir.IsNilConst(bo.X) || ir.IsNilConst(bo.Y)) {
